@@ -648,7 +648,8 @@ func findClosureReader(r Reader, opener, closer byte, opts FindClosureOptions) (
 						if ret == nil {
 							ret = NewSegments()
 						}
-						ret.Append(seg.WithStop(seg.Start + i))
+						// i counts the padding at the head of the line as well
+						ret.Append(seg.WithStop(seg.Start + i - seg.Padding))
 						r.Advance(i + 1)
 						closed = true
 						goto end
